@@ -31,6 +31,39 @@ def _init_writes(prog, eff, ci, seen=None):
     return out
 
 
+def _always_reaches(eff, ci, fn, is_reset, builder, depth=0):
+    """On every normal pass through fn a reset statement or a call of the builder is executed (directly or through
+    unconditional self-calls)."""
+    from ..flow import enclosing_conditions
+    for st in ast.walk(fn):
+        hit = False
+        if isinstance(st, ast.Assign) and is_reset(st):
+            hit = True
+        elif isinstance(st, ast.Call) and isinstance(st.func, ast.Attribute) and isinstance(st.func.value, ast.Name) and st.func.value.id == 'self':
+            if st.func.attr == builder:
+                hit = True
+            elif depth < 3:
+                m = eff.resolve(ci, st.func.attr)
+                if m is not None and m is not fn and _always_reaches(eff, ci, m, is_reset, builder, depth + 1):
+                    hit = True
+        if hit:
+            conds = enclosing_conditions(fn, st)
+            if not conds or (depth == 0 and all(_changed_test(fn, e, pol) for e, pol in conds)):
+                return True
+    return False
+
+
+def _changed_test(fn, e, pol):
+    """'<new value> != self.<field>' (or 'is not'): skipping the reset when nothing changes is not a loss."""
+    ps = {a.arg for a in fn.args.args[1:]}
+    if pol is True and isinstance(e, ast.Compare) and len(e.ops) == 1 and isinstance(e.ops[0], (ast.NotEq, ast.IsNot)):
+        l, r = e.left, e.comparators[0]
+        for a, b in ((l, r), (r, l)):
+            if isinstance(a, ast.Name) and a.id in ps and norm(b).startswith('self._'):
+                return True
+    return False
+
+
 def check(run):
     prog = Program()
     prog.load_many(FILES)
@@ -123,8 +156,14 @@ def _r1(run, prog, eff, base, concrete):
                     continue
                 run.subject('C16-R1')
                 resets = [st for st in clo.writes.get(sent, []) if isinstance(st, ast.Assign) and norm(st.value) == 'None']
-                if resets or bname in clo.selfcalls:
+                always = _always_reaches(eff, ci, fn, lambda st: isinstance(st, ast.Assign) and norm(st.value) == 'None' and
+                                         any(norm(t) == 'self.' + sent for t in st.targets), bname)
+                if (resets or bname in clo.selfcalls) and always:
                     run.ok('C16-R1', '%s.%s invalidates %s' % (ci.name, name, sent), 'writes %s' % hit)
+                elif resets or bname in clo.selfcalls:
+                    run.fail('C16-R1', K + 'setter:%s|conditional-reset:%s' % (name, sent), c.mod.relpath, fn.lineno,
+                             "%s.%s writes %s, which %s reads, but resets '%s' only under a condition: after the other assignments %s keeps "
+                             "the value computed from the old parameters" % (ci.name, name, hit, bname, sent, gname))
                 else:
                     run.fail('C16-R1', K + 'setter:%s|stale:%s' % (name, sent), c.mod.relpath, fn.lineno,
                              "%s.%s writes %s, which %s reads, but neither resets '%s' nor recomputes it: %s keeps the value computed "
@@ -143,8 +182,11 @@ def _r1(run, prog, eff, base, concrete):
                 if not hit:
                     continue
                 run.subject('C16-R1')
-                if bname in eff.closure(ci, fn).selfcalls:
+                if bname in eff.closure(ci, fn).selfcalls and _always_reaches(eff, ci, fn, lambda st: False, bname):
                     run.ok('C16-R1', '%s.%s rebuilds via %s' % (ci.name, name, bname), 'writes %s' % hit)
+                elif bname in eff.closure(ci, fn).selfcalls:
+                    run.fail('C16-R1', K + 'setter:%s|conditional-rebuild:%s' % (name, bname), c.mod.relpath, fn.lineno,
+                             '%s.%s writes %s, which %s reads, but re-runs it only under a condition' % (ci.name, name, hit, bname))
                 else:
                     run.fail('C16-R1', K + 'setter:%s|stale:%s' % (name, bname), c.mod.relpath, fn.lineno,
                              '%s.%s writes %s, which %s reads, but does not re-run it' % (ci.name, name, hit, bname))
@@ -269,6 +311,9 @@ _SP = 'cherab/tools/spectroscopy/spectrometer.py'
 _PO = 'cherab/tools/spectroscopy/polychromator.py'
 _IN = 'cherab/tools/spectroscopy/instrument.py'
 MUTANTS = [
+    dict(name='filters-reset-only-when-count-changes', file='cherab/tools/spectroscopy/polychromator.py',
+         find="        self._pipeline_classes = None\n        self._pipeline_kwargs = None\n\n    def _update_pipeline_classes",
+         replace="        if self._pipeline_classes is None or len(self._pipeline_classes) != len(value):\n            self._pipeline_classes = None\n            self._pipeline_kwargs = None\n\n    def _update_pipeline_classes", expect='C16-R1'),
     dict(name='setter-does-not-clear', file=_SP, find="        self._min_bins_per_pixel = value\n        self._clear_spectral_settings()", replace="        self._min_bins_per_pixel = value", expect='C16-R1'),
     dict(name='name-setter-keeps-kwargs', file=_IN, find="        self._name = str(value)\n        self._pipeline_kwargs = None", replace="        self._name = str(value)", expect='C16-R1'),
     dict(name='lazy-getter-wrong-sentinel', file=_IN, find="        if self._max_wavelength is None:\n            self._update_spectral_settings()\n\n        return self._max_wavelength",
@@ -284,5 +329,8 @@ MUTANTS = [
          replace="        self._wavelengths = tuple(_wavelengths)\n\n    @property\n    def wavelength_to_pixel(self):\n        # Wavelength-to-pixel calibration arrays.\n        return self._wavelength_to_pixel\n\n    def resolution", expect='C16-R1'),
 ]
 TWINS = [
+    dict(name='setter-skips-unchanged-value', file='cherab/tools/spectroscopy/polychromator.py',
+         find="        self._min_bins_per_window = value\n        self._clear_spectral_settings()",
+         replace="        if value != self._min_bins_per_window:\n            self._min_bins_per_window = value\n            self._clear_spectral_settings()"),
     dict(name='message-change', file=_SP, find='"Attribute \'grating\' must be positive."', replace='"grating must be > 0"'),
 ]
